@@ -349,16 +349,34 @@ def run(ctx):
         ctx.ob("R19.5", "segments:%s?" % callee, bool(cs) and all(check_guard(
             ffs, CallResult("FunctionInfo::" + callee, "Break"), bypass="none").ok for _ in [0]),
             "jump-outside-function checks are propagated", ffs.where())
-    s2o = F.find1(seg + "functions_statement_ids_to_offsets")
+    cbs = F.find1(seg + "compute_bytecode_segment_lengths")
+    # the statement -> offset conversion, wherever it sits among the routines of the module that
+    # compute_bytecode_segment_lengths uses (a helper, a closure, or inline)
+    scope2, todo = [], [cbs]
+    while todo:
+        f = todo.pop()
+        if f in scope2:
+            continue
+        scope2.append(f)
+        todo += F.closures_of(f)
+        for c in f.calls():
+            g2 = F.fns.get(c.path)
+            if g2 is not None and g2.body and c.path.startswith(seg) and g2 not in scope2:
+                todo.append(g2)
     reads = set()
-    for f in F.with_closures(s2o):
+    for f in scope2:
         for _, _, st in f.stmts():
             if st[0] == "a":
                 for p in rvalue_places(st[2]):
-                    reads.update(place_fields(p))
+                    fl_ = place_fields(p)
+                    if "sierra_statement_info" in fl_ or "start_offset" in fl_ or "end_offset" in fl_:
+                        reads.update(fl_)
+        for c in f.calls():
+            for a in c.args:
+                if op_place(a) is not None:
+                    reads.update(x for x in place_fields(op_place(a)) if x in ("start_offset", "end_offset", "sierra_statement_info"))
     ctx.ob("R19.5", "segments:offset<-start_offset", "start_offset" in reads and "end_offset" not in reads,
-           "segment offsets use start_offset", s2o.where())
-    cbs = F.find1(seg + "compute_bytecode_segment_lengths")
+           "segment offsets use start_offset", cbs.where())
     g("R19.5", "segments:find_functions_segments?", cbs, CallResult("find_functions_segments", "Break"), bypass="none")
 
     ctx.floor("C19 obligations", len(ctx.obligations), 28)
